@@ -484,6 +484,22 @@ abbrev Registry (N : Type) := String → Option (Val N → R (Val N))
 def builtins : Registry N := fun f =>
   if f = "mix" then some mix else if f = "distinct" then some distinct else none
 
+/-- `RegisterTopLevelFunction(name, g)`: the map entry is (over)written -/
+def register (reg : Registry N) (name : String) (g : Val N → R (Val N)) : Registry N :=
+  fun f => if f = name then some g else reg f
+
+/-- the functions the correspondence harness registers (and registers again) under names of its choosing -/
+def testImpl : String → Option (Val N → R (Val N))
+  | "count" => some fun v => match v with
+    | .arr xs => .ok (.num (Num.ofInt (Int.ofNat xs.length)))
+    | _ => .ok (.num (Num.ofInt 1))
+  | "wrap" => some fun v => .ok (.arr [v])
+  | "id" => some fun v => .ok v
+  | "first" => some fun v => match v with
+    | .arr (x :: _) => .ok x
+    | _ => .ok .null
+  | _ => none
+
 /-- `ReaderExecutor` -/
 def readerExecutor (reg : Registry N) (p : Parsed) (d : Val N) : R (Val N) :=
   match p.fn with
